@@ -554,8 +554,12 @@ def rule_filtered_view(ctx: Ctx, out: Collector) -> None:
             if not problems:
                 out.ok('SW-1', cons, ctx.p.loc(unit, unit.node), f'{table}')
             else:
+                props = {'C09', 'C10'}
+                if any(pr.startswith('started') for pr in problems):
+                    # a candidate that was started is cut out of later sub-dags: it is never launched, its owner waits forever
+                    props |= {'C02'}
                 out.bad('SW-1', cons, ctx.p.loc(unit, unit.node), f'the {which} of the run view does not reject exactly the flagged '
-                                                                  f'elements: {"; ".join(problems)}', props={'C09', 'C10'})
+                                                                  f'elements: {"; ".join(problems)}', props=props)
 
 
 def _eval_filter(ctx: Ctx, unit: FuncUnit, which: str, parent: FuncUnit) -> Dict[str, List]:
@@ -580,6 +584,12 @@ def _eval_filter(ctx: Ctx, unit: FuncUnit, which: str, parent: FuncUnit) -> Dict
                     mgr.attrs[name] = {}
             interp = Interp(p, oracle)
             closure = {'__unit__': parent, '__closure__': None, '__module__': parent.module, 'self': mgr, '__self__': mgr}
+            # free variables of a nested filter: the enclosing function's parameters - node ids are fresh tokens (the
+            # node under test is none of them), flags are unknown (both outcomes explored)
+            pa = parent.node.args
+            for a_ in list(pa.args)[1:] + list(pa.kwonlyargs):
+                ann = unparse(a_.annotation) if a_.annotation is not None else ''
+                closure.setdefault(a_.arg, TOP if ('bool' in ann or a_.arg.startswith(('is_', 'with_', 'has_'))) else f'<{a_.arg}>')
             args = ['U', 'V'] if which == 'filter_edge' else ['U']
             if unit.cls is not None and unit.parent is None and not unit.is_static:
                 # a bound method of the manager used as the filter
